@@ -365,6 +365,82 @@ def hello_end_offset(wire: bytes, dtls: bool) -> int:
         elif len(acc) >= 4 and len(acc) >= 4 + int.from_bytes(acc[1:4], "big"): return r.p
 
 
+NP_B = 2**21 + 1
+NP_SB, NP_SC = 0xAC00, 11172
+def np_pack(seq):
+    v = 0
+    for x in reversed(seq): v = v * NP_B + (x + 1)
+    return v
+def np_ranges(lst):
+    out=[]; start=prev=None
+    for c in lst:
+        if start is None: start=prev=c
+        elif c==prev+1: prev=c
+        else: out.append((start,prev)); start=prev=c
+    if start is not None: out.append((start,prev))
+    return out
+def np_tables():
+    import stringprep, unicodedata
+    from unicodedata import ucd_3_2_0 as u32
+    mapt=[]; dec=[]; P=[]; D1=[]; D2=[]; CC=[]
+    sp = stringprep
+    for cp in range(0x110000):
+        ch=chr(cp)
+        if sp.in_table_b1(ch): mapt.append(np_pack([cp]))
+        else:
+            m=sp.map_table_b2(ch)
+            if m!=ch: mapt.append(np_pack([cp]+[ord(x) for x in m]))
+        if not (NP_SB<=cp<NP_SB+NP_SC) and not (0xD800<=cp<0xE000):
+            d=u32.normalize("NFKD", ch)
+            if d!=ch: dec.append(np_pack([cp]+[ord(x) for x in d]))
+        if (sp.in_table_c12(ch) or sp.in_table_c22(ch) or sp.in_table_c3(ch) or sp.in_table_c4(ch) or sp.in_table_c5(ch)
+            or sp.in_table_c6(ch) or sp.in_table_c7(ch) or sp.in_table_c8(ch) or sp.in_table_c9(ch)): P.append(cp)
+        if sp.in_table_d1(ch): D1.append(cp)
+        if sp.in_table_d2(ch): D2.append(cp)
+    # combining classes as the normaliser sees them (current database), ranges of equal class
+    cur=None
+    for cp in range(0x110000):
+        c=unicodedata.combining(chr(cp))
+        if c:
+            if cur and cur[2]==c and cur[1]==cp-1: cur[1]=cp
+            else:
+                cur=[cp,cp,c]; CC.append(cur)
+    pairs=[]
+    for cp in range(0x110000):
+        ds=unicodedata.decomposition(chr(cp))
+        if ds and not ds.startswith("<"):
+            parts=ds.split()
+            if len(parts)==2:
+                l,r=int(parts[0],16),int(parts[1],16)
+                if unicodedata.combining(chr(l))==0 and unicodedata.normalize("NFC",chr(l)+chr(r))==chr(cp):
+                    pairs.append(((l<<21|r)<<21)|cp)
+    pairs.sort()
+    rg=lambda L:[(a<<21)|b for a,b in np_ranges(L)]
+    return {"mapTab":mapt,"decTab":dec,"prohibited":rg(P),"randAL":rg(D1),"lCat":rg(D2),"cccTab":[((a<<21|b)<<8)|c for a,b,c in CC],"pairTab":pairs}
+def np_lean(tabs, key):
+    out=["-- GENERATED by harness/c13.py translate() from the running interpreter (stringprep, unicodedata, unicodedata.ucd_3_2_0). Do not edit.",
+         "-- key: " + key, "set_option maxRecDepth 200000", "namespace MitmVerif.Gen.C13Np",""]
+    doc={"mapTab":"nameprep step Map: code point -> replacement (B.1: nothing, B.2: case fold); packed base 2^21+1, digits+1, key first",
+         "decTab":"ucd_3_2_0.normalize('NFKD', ch) for single characters (Hangul syllables excluded: algorithmic); packed like mapTab",
+         "prohibited":"stringprep tables C.1.2 C.2.2 C.3-C.9 as ranges lo*2^21+hi","randAL":"table D.1 ranges","lCat":"table D.2 ranges",
+         "cccTab":"unicodedata.combining (current database, as the normaliser uses) != 0: ((lo*2^21+hi)*256+class)",
+         "pairTab":"canonical composition pairs of the current database: ((first*2^21+second)*2^21+composed), sorted"}
+    for k,v in tabs.items():
+        out.append(f"/-- {doc[k]} -/")
+        out.append(f"def {k} : Array Nat := #[" + ", ".join(map(str,v)) + "]")
+    out += ["","end MitmVerif.Gen.C13Np",""]
+    return "\n".join(out)
+
+
+def np_key() -> str:
+    """identity of everything the nameprep tables are computed from (interpreter library data, not mitmproxy code)"""
+    import inspect, stringprep, sys, unicodedata, encodings.idna as I
+    h = hashlib.sha256()
+    for part in (sys.version, unicodedata.unidata_version, inspect.getsource(stringprep), inspect.getsource(I.nameprep)):
+        h.update(part.encode()); h.update(b"\0")
+    return h.hexdigest()[:32]
+
+
 def lib_idna_hex(raw: bytes) -> str:
     """library answer IdnaLib.idna: raw.decode('idna') as UTF-8 hex, '!' when the codec raises"""
     try:
@@ -410,14 +486,15 @@ _VHOST_CACHE = {}
 
 
 def host_lines_with_lib(nm: bytes):
-    return [vhostT_line(nm)] + vhostN_lines(nm)
+    return [vhostT_line(nm)] + vhostN_lines(nm) + [f"vhostF {hx(nm)}"]
 
 
 def judge_host_replies(nm: bytes, rep, err=None) -> str:
     """'0'/'1' when validHostT, validHostN and the transcribed idna texts are all consistent with the interpreter"""
-    if err or len(rep) != 4: return f"driver:{err}"
+    if err or len(rep) != 5: return f"driver:{err}"
     if rep[1:3] != vhostN_expect(nm, True)[:2]: return f"idna transcription says {rep[1:3]}"
     if rep[3] != rep[0]: return f"validHostT {rep[0]} but validHostN {rep[3]}"
+    if rep[4] != rep[0]: return f"validHostT {rep[0]} but validHostFull (no library answer) {rep[4]}"
     return rep[0]
 
 
@@ -573,7 +650,18 @@ class Check(PropertyCheck):
                f"def tlsPred : Nat × Nat × Nat × Nat × Nat := {preds['tls']}\n"
                f"def dtlsPred : Nat × Nat × Nat × Nat × Nat := {preds['dtls']}\n\n"
                "end MitmVerif.Gen.C13\n")
-        return {"MitmVerif/Gen/C13.lean": src}
+        out = {"MitmVerif/Gen/C13.lean": src}
+        # nameprep data (stringprep tables, NFKD per character, combining classes, composition pairs): 1.1M code points are
+        # probed (~5-8 s), so the file is reused while the interpreter's identity (np_key) is unchanged; the thorough tier
+        # always regenerates it.
+        import os, sys
+        from common.paths import LEAN
+        f = os.path.join(LEAN, "MitmVerif", "Gen", "C13_Np.lean")
+        key = np_key()
+        have = open(f).read() if os.path.exists(f) else ""
+        if ("-- key: " + key + "\n") not in have or "thorough" in sys.argv:
+            out["MitmVerif/Gen/C13_Np.lean"] = np_lean(np_tables(), key)
+        return out
 
     # ---------------------------------------------------------------------------------------------
     # generator
@@ -667,6 +755,22 @@ class Check(PropertyCheck):
             return self.big_spec(e + rng.randint(1, 300), chunks=[e], cuts=[rng.randint(1, e)])
         return self.big_spec(e + rng.randint(0, 2000) if e < 60000 else 66000, chunks=[rng.pick(self.RECORD_EDGES[:3]) + rng.pick([-1, 0, 1]) for _ in range(3)],
                              cuts=sorted(rng.sample(range(1, 16000), 3)))
+
+    NP_POOLS = [range(0x300, 0x370), range(0x1100, 0x1200), range(0xAC00, 0xAC00 + 11172), range(0x590, 0x700), range(0x41, 0x7b),
+                range(0xC0, 0x250), range(0x1E00, 0x2000), range(0x2000, 0x2100), range(0x3040, 0x3100), range(0xFF00, 0xFFF0),
+                range(0xF900, 0xFB50), range(0x1D100, 0x1D200), range(0x900, 0xE00), range(0x370, 0x400), range(0xE0000, 0xE0080),
+                [0xAD, 0x200D, 0x200C, 0x1806, 0xDF, 0x130, 0x149, 0x3C2, 0x17F, 0xFFFD, 0x80, 0x9f, 0xa0, 0x1680, 0x340, 0x341, 0x343,
+                 0x344, 0xf73, 0xf75, 0xf81, 0x2126, 0x212a, 0x212b, 0xd800, 0xdfff, 0x10ffff, 0xfdd0, 0x2ff0]]
+
+    def gen_nprep(self, rng):
+        """strings for the nameprep tie: single code points anywhere, and short mixes of marks / jamo / RTL / compat forms"""
+        if rng.chance(0.3): return {"kind": "nprep", "cps": [rng.randrange(0x110000)]}
+        p = rng.pick(self.NP_POOLS)
+        cps = []
+        for _ in range(rng.randint(1, 6)):
+            q = p if rng.chance(0.7) else rng.pick(self.NP_POOLS)
+            cps.append(q[rng.randrange(len(q))])
+        return {"kind": "nprep", "cps": cps}
 
     def gen_spec(self, rng, small=False):
         dtls = 1 if rng.chance(0.3) else 0
@@ -801,6 +905,8 @@ class Check(PropertyCheck):
             r = rng.random()
             if rng.chance(0.004):
                 yield self.gen_big(rng)
+            elif rng.chance(0.08):
+                yield self.gen_nprep(rng)
             elif rng.chance(0.12):
                 yield {"kind": "host", "name_hex": hx(self.gen_host(rng))}
             elif rng.chance(0.02):
@@ -953,6 +1059,13 @@ class Check(PropertyCheck):
                 return {"valid": v if isinstance(v, bool) else "not-a-bool"}
             except Exception as e:
                 return {"valid": "exc:" + type(e).__name__}
+        if case["kind"] == "nprep":
+            # reference = the interpreter's own encodings.idna.nameprep (library the model's tables are generated from)
+            import encodings.idna as I
+            try:
+                return {"prep": ",".join(str(ord(c)) for c in I.nameprep("".join(chr(c) for c in case["cps"]))) or "-"}
+            except UnicodeError:
+                return {"prep": "!"}
         if case["kind"] == "starts":
             fn = net_tls.starts_like_dtls_record if case["dtls"] else net_tls.starts_like_tls_record
             try:
@@ -1001,6 +1114,7 @@ class Check(PropertyCheck):
             if not isinstance(obs["valid"], bool):
                 fails.append(f"totality: is_valid_host({unhx(case['name_hex'])!r}) ended with {obs['valid']}")
             return fails
+        if case["kind"] == "nprep": return fails          # tie-only kind: the model's nameprep against the interpreter's
         if case["kind"] == "starts":
             if not isinstance(obs["starts"], bool): fails.append(f"totality: starts_like_*_record ended with {obs['starts']}")
             return fails
@@ -1124,8 +1238,9 @@ class Check(PropertyCheck):
     def model_lines(self, case):
         if case["kind"] == "host":
             nm = unhx(case["name_hex"])
-            return [f"vhost {case['name_hex']}", vhostT_line(nm)] + vhostN_lines(nm)
+            return [f"vhost {case['name_hex']}", vhostT_line(nm)] + vhostN_lines(nm) + [f"vhostF {case['name_hex']}"]
         if case["kind"] == "starts": return [f"starts {1 if case['dtls'] else 0} {case['data_hex']}"]
+        if case["kind"] == "nprep": return ["nprep " + (",".join(map(str, case["cps"])) or "-")]
         dtls, wires, _ = self.resolve(case)
         d = "1" if dtls else "0"
         lines = [f"parse {d} {hx(w)}" for w in wires]
@@ -1168,15 +1283,18 @@ class Check(PropertyCheck):
             nm = unhx(case["name_hex"])
             if replies[2:5] != vhostN_expect(nm, v):
                 return {"valid": f"idna transcription: model {replies[2:5]} vs interpreter {vhostN_expect(nm, v)}"}
+            # fourth level: nameprep from the regenerated Unicode tables — the model answers with NO library input
+            if replies[5] != ("1" if v else "0"): return {"valid": f"validHostFull says {replies[5]}, is_valid_host {v}"}
             return {"valid": v}
         if case["kind"] == "starts":
             return {"table": replies[0][:1], "source": replies[0][1:]}
+        if case["kind"] == "nprep": return {"prep": replies[0]}
         out = []
         names = self.ace_names(case)
         foreseen = {}
         if names:
-            extra = replies[len(replies) - 4 * len(names):]; replies = replies[:len(replies) - 4 * len(names)]
-            for i, nm in enumerate(names): foreseen[nm] = judge_host_replies(nm, extra[4 * i:4 * i + 4])
+            extra = replies[len(replies) - 5 * len(names):]; replies = replies[:len(replies) - 5 * len(names)]
+            for i, nm in enumerate(names): foreseen[nm] = judge_host_replies(nm, extra[5 * i:5 * i + 5])
         for rep in replies:
             f = rep.split(" ")
             if f[0] in ("incomplete", "invalid") and len(f) == 1:
@@ -1206,6 +1324,7 @@ class Check(PropertyCheck):
 
     def impl_view(self, case, obs):
         if case["kind"] == "host": return {"valid": obs["valid"]}
+        if case["kind"] == "nprep": return {"prep": obs["prep"]}
         if case["kind"] == "starts":
             b = "1" if obs["starts"] is True else "0" if obs["starts"] is False else str(obs["starts"])
             return {"table": b, "source": b}
@@ -1215,6 +1334,7 @@ class Check(PropertyCheck):
     def classify(self, case, obs):
         if case["kind"] == "host": return None if case["name_hex"] == "-" else "host:" + case["name_hex"][:80]
         if case["kind"] == "starts": return f"starts:{case['dtls']}:{case['data_hex'][:20]}"
+        if case["kind"] == "nprep": return "nprep:" + ",".join(map(str, case["cps"][:12])) if case["cps"] else None
         _, wires, _ = self.resolve(case)
         if not wires[0]: return None
         return hashlib.sha256(repr((case["dtls"], wires, case.get("cuts"))).encode()).hexdigest()[:20]
@@ -1222,6 +1342,7 @@ class Check(PropertyCheck):
     def branches(self, case, obs):
         if case["kind"] == "host": return ["kind:host", f"host:{obs['valid']}"]
         if case["kind"] == "starts": return ["kind:starts", f"starts:{obs['starts']}"]
+        if case["kind"] == "nprep": return ["kind:nprep", "nprep:" + ("error" if obs["prep"] == "!" else "ok")]
         w = obs["whole"][0]
         out = [f"kind:{case['kind']}", f"{'dtls' if case['dtls'] else 'tls'}:{w['o']}"]
         if w["o"] == "hello":
@@ -1237,7 +1358,7 @@ class Check(PropertyCheck):
         return out
 
     def neighbours(self, case, rng):
-        if case["kind"] in ("host", "starts"): return
+        if case["kind"] in ("host", "starts", "nprep"): return
         _, wires, _ = self.resolve(case)
         w = wires[0]
         for i in range(min(len(w), 80)):
